@@ -9,7 +9,18 @@ sys.path.insert(0, os.path.dirname(os.path.dirname(os.path.abspath(__file__))))
 from vlib import asm  # noqa: E402
 
 
-def sig(text, name="/tmp/min/f0.mac"):
+ROOT = "/tmp/pdpy11-min"
+
+
+def setup_root():
+    from checks import C08
+    os.makedirs(ROOT, exist_ok=True)
+    for name, text in C08.INC_FILES.items():
+        open(os.path.join(ROOT, name), "w").write(text)
+    open(os.path.join(ROOT, "blob.bin"), "wb").write(bytes(range(37)))
+
+
+def sig(text, name=ROOT + "/f0.mac"):
     o = asm.assemble([(name, text)], budget=3_000_000, wall=20)
     if o.cls == "internal":
         return f"internal:{o.exc_type}@{o.exc_where}"
@@ -41,6 +52,7 @@ def ddmin(items, test):
 
 def main():
     path = sys.argv[1]
+    setup_root()
     if path.endswith(".json"):
         rep = json.load(open(path))
         text = "\n".join(t for _, t in rep["case"]["files"])
@@ -54,6 +66,8 @@ def main():
     toks = ddmin(tokenise(text), lambda ts: sig("".join(ts)) == want)
     print("minimal witness:")
     print("".join(toks))
+    import shutil
+    shutil.rmtree(ROOT, ignore_errors=True)
 
 
 if __name__ == "__main__":
